@@ -2205,7 +2205,7 @@ impl Property for C13 {
     }
     fn runs(&self, tier: Tier) -> u64 {
         match tier {
-            Tier::Quick => 200_000,
+            Tier::Quick => 300_000,
             Tier::Thorough => 4_000_000,
         }
     }
